@@ -27,6 +27,9 @@ type sample struct {
 }
 
 func main() {
+	// type aliases are transparent for the verifier: do not materialise types.Alias nodes (`type A = pkg.B` is pkg.B
+	// everywhere, so both spellings share one SMT sort and one heap component)
+	os.Setenv("GODEBUG", "gotypesalias=0")
 	if len(os.Args) < 2 {
 		fmt.Fprintln(os.Stderr, "usage: gocv check|dump ...")
 		os.Exit(2)
